@@ -33,7 +33,7 @@ CLAIMS = {
         technique="ast formula canonicalisation with Gaussian bookkeeping (exact covariance of the split)",
         text="Exact covariance matrix of (W_L,H_L,W_R,H_R) computed from the extracted coefficients equals "
              "diag(l, l/12, r, r/12) identically in l, r; top-level scalings; seed separation of the noises; Davie / "
-             "Foster conditional mean and residual variance equal the prescribed formulas; noise at full shape. Split covariance also in dyadic mode with a rounded midpoint; aggregated Levy area has regression slope 1; quantisation grid no coarser than tol; 64-bit seeds.",
+             "Foster conditional mean and residual variance equal the prescribed formulas; noise at full shape. Split covariance also in dyadic mode with a rounded midpoint; aggregated Levy area has regression slope 1; quantisation grid no coarser than tol; 64-bit seeds. The generator that consumes a node seed uses all 64 bits of it (torch's CPU generator keeps 32; modelling fact).",
         note="Partial: the joint law over arbitrary interval sets follows from the split law by the Levy construction "
              "argument, which is on paper. " + TRUSTED),
     "C05": dict(
@@ -48,14 +48,14 @@ CLAIMS = {
         technique="explicit-flow taint (seed provenance, dyadic non-interference), quantisation typestate",
         text="Seeds are functions of (entropy, tree position, pool size) only; in dyadic mode the requested point has "
              "no explicit flow into the split point; every stored/compared time is quantised; history-dependent "
-             "refinement is disabled in dyadic mode; BrownianTree forwards entropy/tol/pool_size/halfway_tree.",
+             "refinement is disabled in dyadic mode; BrownianTree forwards entropy/tol/pool_size/halfway_tree. Seeds at the point of use are the same whichever sibling's noise is requested first (SeedSequence.spawn modelled as stateful).",
         note="Partial: 'different entropies give different paths' is statistical and not decided. " + TRUSTED),
     "C07": dict(
         technique="call-graph acyclicity, must-write typestate, interval analysis, small-model path enumeration",
         text="Bounded stack for every query history (acyclic stack-edge call graph with trampolined edges excluded), "
              "no AttributeError from split-only slots (typestate), strictly positive refinement bound (interval "
              "analysis), cache never above cache_size (path enumeration over a small model), sub-tolerance queries "
-             "short-circuited on quantised times, default Brownian motion spans the horizon. Every split request is dominated by a strict order on quantised values (no zero-length child, no child equal to its parent).",
+             "short-circuited on quantised times, default Brownian motion spans the horizon. Every split request is dominated by a strict order on quantised values (no zero-length child, no child equal to its parent). _LRUDict driven through its own methods on a small model (bounds 1..8, three insertion patterns); statistics-driven refinement of the dependency tree is bounded by the query history (never by the length of one query).",
         note="Termination of the trampolined search loops is not decided in general. " + TRUSTED),
     "C08": dict(
         technique="gradient-flow taint over def-use chains; create_graph / no_grad discipline at autograd sites",
@@ -68,7 +68,7 @@ CLAIMS = {
         text="sdeint_adjoint builds the same solver with the same arguments and calls the same integrate; "
              "autograd.Function argument/None arity and saved-tensor layout agree; the backward sweep covers every "
              "output interval and injects every output cotangent exactly once with reflected times; default adjoint "
-             "table total and valid. Backward sweep for all-nonzero and trailing-zero cotangents; Function.apply arguments bound by role (compared by value); differentiated forward values are computed with a graph.",
+             "table total and valid. Backward sweep for all-nonzero and trailing-zero cotangents; Function.apply arguments bound by role (compared by value); differentiated forward values are computed with a graph. No SDE evaluation that reaches the adjoint Function as a tensor input is made outside it (one known finding: the initial extra state of reversible Heun).",
         note="Partial: convergence of adjoint gradients as dt->0 is not decided. " + TRUSTED),
     "C10": dict(
         technique="ast formula canonicalisation: algebraic inverse and transpose of the reversible Heun step",
@@ -80,7 +80,7 @@ CLAIMS = {
         technique="call-site lint over all autograd / forward-SDE calls of AdjointSDE; dispatch-table totality",
         text="Every forward-SDE call passes -t; state blocks negated; VJP wiring (inputs, grad_outputs, allow_unused); "
              "create_graph=True exactly where a derivative is differentiated again; no graph leaks when grad is "
-             "disabled; dispatch tables total over 2x4 with Ito non-additive cells selecting corrected drifts. misc.vjp / misc.jvp are evaluated from their own bodies on an autograd model; a forward value computed outside enable_grad may not be differentiated.",
+             "disabled; dispatch tables total over 2x4 with Ito non-additive cells selecting corrected drifts. misc.vjp / misc.jvp are evaluated from their own bodies on an autograd model; a forward value computed outside enable_grad may not be differentiated. With gradients enabled no returned block contains a detached factor (remains differentiable).",
         note="Partial: that the correction formulas are the mathematically right ones is not decided. " + TRUSTED),
     "C12": dict(
         technique="explicit-flow non-interference of output times; formula identity of the interpolant",
@@ -91,13 +91,13 @@ CLAIMS = {
     "C13": dict(
         technique="effect analysis: no hidden state outside constructors; extra-state plumbing",
         text="No attribute/global store in any step, integrate, init_extra_solver_state or SDE-wrapper method other "
-             "than __init__; integrate returns the carried extra; sdeint uses extra_solver_state verbatim. The value reported at a step end is the solver's state bit for bit (float-exact reduction); fixed-step arguments depend only on the restartable state.",
+             "than __init__; integrate returns the carried extra; sdeint uses extra_solver_state verbatim. The value reported at a step end is the solver's state bit for bit (float-exact reduction); fixed-step arguments depend only on the restartable state. The reported outputs are the loop states themselves (list + stack, or an output tensor without a fixed dtype).",
         note="Bit identity across chunks additionally needs C05 and float reasoning. " + TRUSTED),
     "C14": dict(
         technique="control-dependence + truth-table of the accept predicate; interval analysis of the controller",
         text="Accept is control-dependent on exactly 'err <= 1 or h <= dt_min' (truth table over 3x3 regions); error "
              "compares the full step with two chained half steps; accepted state is the two-half-step state; a "
-             "rejected step strictly shrinks (factor in [0.2, 0.94)); clamp to dt_min; estimate bounded away from 0. The controller scales the length of the trial actually taken; trial intervals are never stretched beyond the controller's step (exact-rational models).",
+             "rejected step strictly shrinks (factor in [0.2, 0.94)); clamp to dt_min; estimate bounded away from 0. The controller scales the length of the trial actually taken; trial intervals are never stretched beyond the controller's step (exact-rational models). The first trial is max(dt, dt_min) long; last-steps models also far from the origin of time.",
         note="Partial: 'tightening tolerances reduces the true error' is not decided. " + TRUSTED),
     "C15": dict(
         technique="ast formula canonicalisation: reverse step composed with forward step is the identity",
